@@ -84,6 +84,29 @@ def check_structure(case):
             lv = api.leaves(c)
             if names(lv) != sorted(cats.LEAVES[n]):
                 raise Bad('leaves', f'{label}.leaves({n}) = {names(lv)}, tree says {sorted(cats.LEAVES[n])}')
+    # what a query returns belongs to the caller: editing it must not change later answers
+    for n in NAMES:
+        c = cat(n)
+        for api in (TC, HM):
+            for fn in (api.children, api.nodes, api.leaves):
+                r = fn(c)
+                if isinstance(r, (set, list)):
+                    try:
+                        r.clear() if n != 'CORE' else r.add(TC.OTHER) if isinstance(r, set) else r.append(TC.OTHER)
+                    except Exception:  # noqa  (an immutable result is fine)
+                        pass
+    v = TC.valid(include={TC.CORE}, exclude={TC.NOTE})
+    if isinstance(v, set):
+        v.clear()
+    a_ = TC.all()
+    if isinstance(a_, set):
+        a_.discard(TC.CORE)
+    for n in NAMES:
+        c = cat(n)
+        if names(TC.nodes(c)) != sorted(cats.DESC[n]) or names(TC.children(c)) != sorted(cats.CHILDREN[n]) or names(TC.leaves(c)) != sorted(cats.LEAVES[n]):
+            raise Bad('result-aliased', f'after the caller edited the sets returned by earlier queries, nodes/children/leaves({n}) changed')
+    if names(TC.all()) != sorted(NAMES) or names(TC.valid(include={TC.CORE}, exclude={TC.NOTE})) != sorted(cats.selected(['CORE'], ['NOTE'])):
+        raise Bad('result-aliased', 'after the caller edited returned sets, all()/valid() changed')
     for a in NAMES:
         for b in NAMES:
             exp = b in cats.DESC_STAR[a]
